@@ -2,6 +2,7 @@ package props
 
 import (
 	"fmt"
+	"go/constant"
 	"go/token"
 	"go/types"
 	"strings"
@@ -66,6 +67,10 @@ func runC12(c *Ctx) {
 	c.Rule("C12.O7", "E4", "the per-message state (msgType, compress) is reset only inside the data-frame case: no path through a control frame's case reaches a reset (a Ping between two fragments must not wipe the message under assembly)", 1)
 	c.Rule("C12.O8", "E4", "pooled (de)compressors are handed back once: every sync.Pool.Put of a wrapper's reader/writer is followed on every path by clearing the wrapper's field", 2)
 	c.Rule("C12.O9", "E4", "the unparsed-input cache is compacted by copying to the front, never by re-slicing the pooled buffer from the front (same rule as C11.O9)", 1)
+	c.Rule("C12.O10", "E4,E6", "the TLS drain loop of a WebSocket connection handed to the poller reads the decrypted stream to exhaustion: draining stops only on a zero count (one socket read can carry several TLS records, i.e. several frames)", 1)
+	c.Rule("C12.O11", "E4", "permessage-deflate is negotiated only under the option that the frame validator uses to accept RSV1: the client's offer (the Sec-Websocket-Extensions request field) and the server's acceptance (compress = true) are dominated by enableCompression being set", 2)
+	c12NegotiationFlag(c)
+	c10TLSDrain(c, "C12.O10", "websocket")
 	c11NoFrontReslice(c, "C12.O9")
 	c12ResetScope(c)
 	c12PoolOnce(c)
@@ -1157,5 +1162,64 @@ func c12PoolOnce(c *Ctx) {
 			}
 			c.Cond(len(esc) == 0, "C12.O8", key, c.Pos(cs.In), "the wrapper forgets the pooled object", "the object put into the pool at "+c.Pos(cs.In)+" stays in "+field+": a later Close puts it again, and two connections can then draw the same (de)compressor")
 		}
+	}
+}
+
+// c12NegotiationFlag: O11.  validFrame rejects RSV1 unless Conn.enableCompression
+// (copied from the Upgrader/Options) is set.  An endpoint that negotiates the
+// extension under any other condition tells the peer it may compress and then
+// fails the connection on the first compressed frame.
+func c12NegotiationFlag(c *Ctx) {
+	const fEnable = "websocket.Upgrader.enableCompression"
+	under := func(fi *ir.FnInfo, at ssa.Instruction) bool {
+		return fi.HasFact(at, func(ft ir.Fact) bool {
+			k, set, ok := c.P.BoolFieldTest(ft.Cond, ft.Truth)
+			return ok && k == fEnable && set
+		})
+	}
+	// the client's offer
+	if fn := c.Fn("C12.O11", "(*websocket.Dialer).DialContext"); fn != nil {
+		fi := c.P.Info(fn)
+		n := 0
+		bad := ""
+		for _, b := range fn.Blocks {
+			for _, in := range b.Instrs {
+				mu, ok := in.(*ssa.MapUpdate)
+				if !ok {
+					continue
+				}
+				k, ok := mu.Key.(*ssa.Const)
+				if !ok || k.Value == nil || k.Value.Kind() != constant.String || !strings.EqualFold(constant.StringVal(k.Value), "Sec-Websocket-Extensions") {
+					continue
+				}
+				n++
+				if !under(fi, in) {
+					bad = "the extension offer at " + c.Pos(in) + " is not decided by the enableCompression option alone: offered without it, an accepting server compresses and the client fails the connection on the first RSV1 frame"
+				}
+			}
+		}
+		if n == 0 {
+			c.OK("C12.O11", fnKey(c.P, fn, "extension offer"), c.FnPos(fn), "the client never offers the extension")
+		} else {
+			c.Cond(bad == "", "C12.O11", fnKey(c.P, fn, "extension offer"), c.FnPos(fn), fmt.Sprintf("%d offer site(s) under enableCompression", n), bad)
+		}
+	}
+	// the server's acceptance: constant true flowing into the compress result
+	for _, f := range c.pkgFuncs("websocket") {
+		if !strings.HasPrefix(c.P.FuncName(f), "(*websocket.Upgrader).") {
+			continue
+		}
+		calls := c.P.Calls(f, func(name string, _ ir.CallSite) bool { return name == "websocket.parseExtensions" })
+		if len(calls) == 0 {
+			continue
+		}
+		fi := c.P.Info(f)
+		bad := ""
+		for _, cs := range calls {
+			if !under(fi, cs.In) {
+				bad = "the request's extensions are evaluated at " + c.Pos(cs.In) + " without enableCompression being set: the server accepts permessage-deflate and then rejects the client's compressed frames"
+			}
+		}
+		c.Cond(bad == "", "C12.O11", fnKey(c.P, f, "extension acceptance"), c.FnPos(f), fmt.Sprintf("%d evaluation(s) of the offered extensions under enableCompression", len(calls)), bad)
 	}
 }
